@@ -19,6 +19,9 @@ error                                      Option String   (status or message li
 interface values the code only passes on   Opaque tag      (a token)
 a call whose callee is outside the repo
   and whose result is not used             Eff             (recorded in the `eff` field of the receiver)
+float64 (only d.Seconds() given to a metric) Int            (nanoseconds; the division by 1e9 is not modelled)
+*T for a repo struct T                     T + a nil flag  (a store through the pointer is written back to the map
+                                                            element the pointer was taken from)
 -/
 namespace OutlineModel.GoRT
 
@@ -31,6 +34,7 @@ deriving DecidableEq, Repr
 structure Eff where
   name : String
   args : List Int
+  strs : List String := []     -- label values of a metric call
 deriving DecidableEq, Repr
 
 /-! ### maps -/
@@ -72,6 +76,9 @@ def beUint32 (b : List UInt8) : Option UInt32 :=
   match b with
   | b0 :: b1 :: b2 :: b3 :: _ => some ((b0.toUInt32 <<< 24) ||| (b1.toUInt32 <<< 16) ||| (b2.toUInt32 <<< 8) ||| b3.toUInt32)
   | _ => none
+/-- `d.Seconds()` of a time.Duration handed to a metric: the unit conversion (a float division by 1e9) is not
+    modelled; the value is kept as the duration in nanoseconds -/
+def seconds (d : Int) : Int := d
 /-- `a & b` on Go ints -/
 def iand (a b : Int) : Int :=
   match a, b with
